@@ -135,10 +135,10 @@ def run(ctx):
                             args[j] = rnd.choice(["-", "1", "2"])
                         elif args[j].replace(",", "").isdigit() and rnd.random() < 0.5:
                             args[j] = rnd.choice([args[j] + ",3", "-" if "," in args[j] else args[j], str(rnd.choice(ids))])
-                a2 = [("-" if (implicit_only or rnd.random() < 0.7) else str(rnd.choice([50, 51, 2]))) if a is None else a for a in args]
+                a2 = [("-" if (implicit_only or rnd.random() < 0.7) else str(rnd.choice([50, 51, 2, 0]))) if a is None else a for a in args]
                 calls.append(name + "".join("/" + a for a in a2))
             elif r < 0.7:
-                calls.append("type_pointer/%s/%d/%d" % ("-" if (implicit_only or rnd.random() < 0.7) else "60", rnd.choice([0, 7]), rnd.choice(ids)))
+                calls.append("type_pointer/%s/%d/%d" % ("-" if (implicit_only or rnd.random() < 0.7) else rnd.choice(["60", "0"]), rnd.choice([0, 7]), rnd.choice(ids)))
             elif r < 0.8:
                 # constants, and instructions *without a result id* that also live in types_global_values (the dedup search
                 # has to step over them): forward pointers, line info given with no block selected, raw insertions
@@ -168,7 +168,7 @@ def run(ctx):
         bound = int(dump.split(" ")[0].split(",")[3])
         seen_req = {}
         fresh = []
-        explicit = {"50", "51", "2", "60", "77", "88"}
+        explicit = {"50", "51", "2", "60", "77", "88", "0"}
         for c, o in zip(calls, outs):
             parts = c.split("/")
             name = parts[0]
@@ -196,7 +196,7 @@ def run(ctx):
                 last = int(o[3:])
         # ids: every id reported by an id-allocating call without explicit id is below the bound
         for c, o in zip(calls, outs):
-            if o.startswith("ok:") and o[3:].isdigit() and int(o[3:]) >= bound and int(o[3:]) not in (50, 51, 60, 77, 88, 2):
+            if o.startswith("ok:") and o[3:].isdigit() and int(o[3:]) >= bound and int(o[3:]) not in (50, 51, 60, 77, 88, 2, 0):
                 return f"header bound {bound} does not exceed the allocated id {o[3:]} (`{c}`)"
         if bound < start:
             return f"bound {bound} below the starting id {start}"
@@ -262,7 +262,7 @@ def run(ctx):
     ctx.assumptions += ["id space not exhausted (next_id below 2^32; histories start at most at 4e9 and allocate < 100 ids)",
                         "type-request oracle: implicit-only histories are judged for 'same request same id', 'different requests different ids' and 'no identical declarations'"]
     return C.finish(ctx, level="proof", checker_cmd="lake build Rspirv.Props.C13 + #print axioms",
-                    rule="seeded histories over every generated type method with the three-way dedup branch (explicit id and implicit forms, small argument domains so that identical requests recur) and type_pointer, interleaved with constants, id(), module-level id allocators and block-level calls that fail after reserving an id; new builders and builders continued from bounds 1, 9, 1000, 4e9; distinct non-trivial = distinct histories",
+                    rule="seeded histories over every generated type method with the three-way dedup branch (explicit id and implicit forms, small argument domains so that identical requests recur) and type_pointer, interleaved with constants, id(), module-level id allocators and block-level calls that fail after reserving an id; new builders and builders continued from bounds 1, 9, 1000, 4e9; every generated type method once implicitly and once more in one history; distinct non-trivial = distinct histories",
                     trusted=["hand model Builder.lean + method specs regenerated from the source + differential harness"])
 
 
